@@ -7,7 +7,8 @@ ids=("$@"); [ ${#ids[@]} -eq 0 ] && ids=($(seq -f "C%02g" 1 36))
 cd /repo || exit 2
 if [ -n "$(git status --porcelain --untracked-files=no)" ]; then echo "/repo has uncommitted changes; refusing" >&2; exit 2; fi
 git apply "$patch" || { echo "patch does not apply" >&2; exit 2; }
-trap 'git -C /repo checkout -- . ' EXIT
+# evidence written while /repo is modified must never persist: restore the committed evidence as well
+trap 'git -C /repo checkout -- . ; git -C /verif checkout -- evidence' EXIT
 cd /verif
 ./check setup >/dev/null 2>&1 || { echo "BUILD FAILED with patch"; exit 2; }
 for id in "${ids[@]}"; do
